@@ -96,6 +96,11 @@ retry_fetch_lv:
 
     if (target_border->get_key_length_at(lv_pos) <= sizeof(key_slice_type)) {
         value* vp = lv_ptr->get_value();
+        if constexpr (!is_inlinable<ValueType>()) {
+            // a concurrent remove clears the slot before it shrinks the
+            // permutation, and removes are not tracked by the version.
+            if (vp == nullptr) { goto retry_fetch_lv; } // NOLINT
+        }
         auto* v_body = static_cast<ValueType*>(value::get_body(vp));
         node_version64_body final_check = target_border->get_stable_version();
         if (final_check.get_vsplit() != v_at_fb.get_vsplit() ||
